@@ -243,10 +243,19 @@ func (p *poller) setRW(fd int, slot *Slot, flag PollerEvent) error {
 		oldEvents := *events
 		*events |= flag
 
+		var err error
 		if oldEvents == 0 {
-			return p.add(fd, createEvent(*events, slot))
+			err = p.add(fd, createEvent(*events, slot))
+		} else {
+			err = p.modify(fd, createEvent(*events, slot))
 		}
-		return p.modify(fd, createEvent(*events, slot))
+		if err != nil {
+			// The kernel did not take the registration (e.g. EPERM for a regular file, EBADF for a descriptor closed
+			// underneath): nothing is pending and the slot must not claim interest it does not have.
+			*events = oldEvents
+			p.pending--
+		}
+		return err
 	}
 	return nil
 }
